@@ -244,6 +244,7 @@ package net
 //@   call Read#1: assert[C10] e.nread == e.ndisp
 //@   call Read#1: ghost e.nread := e.nread + 1
 //@   call dispatch#1: assert[C10] e.nread == e.ndisp + 1 && arg0 == msg
+//@   call dispatch#1: assert[C10] iterfresh(msg)
 //@   call dispatch#1: ghost e.ndisp := e.ndisp + 1
 //@   call closeWith#1: assert[C11] err != nil && arg0 == err
 //@   call closeWith#1: ghost e.nclose := e.nclose + 1
